@@ -298,6 +298,8 @@ struct C20 : World {
   struct RawRun {
     vbi_raw_decoder rd; std::vector<std::vector<uint8_t>> images; int nlines = 0;
     std::vector<uint64_t> decode_results;
+    std::vector<std::pair<unsigned, unsigned>> last;  // (id, line) of the last decode
+    std::vector<std::vector<std::pair<unsigned, unsigned>>> sent;  // per image: (id, line) transmitted
   };
   static void raw_setup(RawRun& r) {
     vbi_raw_decoder_init(&r.rd);
@@ -316,6 +318,8 @@ struct C20 : World {
       std::vector<uint8_t> img((size_t)r.nlines * 1440, 0);
       vbi_raw_vbi_image(img.data(), img.size(), (const vbi_sampling_par*)&r.rd, 0, 0, FALSE, s, (unsigned)k);
       r.images.push_back(img);
+      std::vector<std::pair<unsigned, unsigned>> sl; for (int q = 0; q < k; q++) sl.push_back({s[q].id, s[q].line});
+      r.sent.push_back(sl);
     }
   }
   static uint64_t raw_decode(RawRun& r, int i) {
@@ -325,7 +329,8 @@ struct C20 : World {
     int n = vbi_raw_decode(&r.rd, img, out);
     free(img);
     Fnv h; h.u64((uint64_t)n);
-    for (int q = 0; q < n && q < 8; q++) { h.u64(out[q].id); h.u64(out[q].line); h.bytes(out[q].data, 42); }
+    { HarnessScope hs; r.last.clear(); }
+    for (int q = 0; q < n && q < 8; q++) { h.u64(out[q].id); h.u64(out[q].line); h.bytes(out[q].data, 42); HarnessScope hs; r.last.push_back({out[q].id, out[q].line}); }
     return h.h;
   }
   static uint64_t raw_exec(RawRun& r, const Op& op) {
@@ -384,13 +389,37 @@ struct C20 : World {
     vbi_raw_decoder_destroy(&R->rd);
     if (!ctx.failed) {
       RawRun* T = new RawRun();
-      raw_setup(*T); T->images = R->images;
-      vbi_raw_decoder_add_services(&T->rd, VBI_SLICED_TELETEXT_B | VBI_SLICED_VPS, 0);
+      raw_setup(*T); T->images = R->images; T->sent = R->sent;
+      // The service set in force, as the API itself reports it: the return value of the last add / remove call.
+      // In the replay every service call sits at a known place between two decodes, so each decode can be held
+      // against that set: nothing outside it may come out, and every transmitted line of a service inside it must.
+      // Not demanded: line 16, whose service changes from image to image (the decoder predicts a line as blank
+      // after one miss and looks again only every 16th frame - documented learning, raw_decoder.c decode_pattern),
+      // and services of which only a part is in the set (removing VBI_SLICED_TELETEXT_B_L10_625 alone removes the
+      // merged Teletext job while the return value still lists _L25: a truthfulness flaw of the return value,
+      // outside what the property states); and nothing while a Caption service shares the lines (its slicer can
+      // lock onto random Teletext payload: signal identification, not service-set consistency).
+      unsigned model = vbi_raw_decoder_add_services(&T->rd, VBI_SLICED_TELETEXT_B | VBI_SLICED_VPS, 0);
       lin.start_replay();
       lin.mutexes = {&T->rd.mutex};
-      lin.exec = [&](const ForeignOp& f) { return raw_exec(*T, plan.ops[(size_t)f.opidx]); };
+      lin.exec = [&](const ForeignOp& f) {
+        const Op& op = plan.ops[(size_t)f.opidx];
+        uint64_t r = raw_exec(*T, op);
+        if (op.kind == "add" || op.kind == "remove") model = (unsigned)(r & 0xFFFFFFu);
+        return r;
+      };
       k.sync_hook = [lp](const char* op, const void* m, int task) { lp->hook(op, m, task); };
-      for (int i = 0; i < nframes && !ctx.failed; i++) T->decode_results.push_back(raw_decode(*T, i));
+      for (int i = 0; i < nframes && !ctx.failed; i++) {
+        T->decode_results.push_back(raw_decode(*T, i));
+        for (auto& o : T->last)
+          if (!(o.first & model)) { ctx.fail("oracle:service-not-in-set", "sequential replay: decode #%d returned a line of service 0x%x (line %u) although the service set in force (the last add/remove call returned 0x%x) does not contain it", i, o.first, o.second, model); break; }
+        if (ctx.failed) break;
+        for (auto& sl : T->sent[(size_t)i]) {
+          if ((sl.first & model) != sl.first || sl.second == 16 || (model & ~(VBI_SLICED_TELETEXT_B | VBI_SLICED_VPS | VBI_SLICED_WSS_625))) continue;
+          bool found = false; for (auto& o : T->last) if (o.second == sl.second && (o.first & sl.first)) found = true;
+          if (!found) { ctx.fail("oracle:service-in-set-not-decoded", "sequential replay: decode #%d did not return line %u (service 0x%x) although the service set in force (0x%x) contains it", i, sl.second, sl.first, model); break; }
+        }
+      }
       if (!ctx.failed) lin.finish_replay();
       k.sync_hook = nullptr;
       if (!ctx.failed && conc != T->decode_results) {
